@@ -11,6 +11,8 @@ import (
 	"fmt"
 	"os"
 	"strings"
+	"sync"
+	"sync/atomic"
 	"time"
 
 	"mellium.im/xmpp/blocklist"
@@ -44,6 +46,7 @@ type Case struct {
 	Helper  string   `json:"helper,omitempty"`
 	Replies []string `json:"replies,omitempty"`
 	Func    string   `json:"func,omitempty"`
+	Par     int      `json:"par,omitempty"` // flood: number of application goroutines
 	Labels  []string `json:"labels,omitempty"`
 }
 
@@ -267,6 +270,15 @@ func runServe(c Case) Obs {
 		o.Class = "blocked"
 		g := goroutineWith("main.serveMarker")
 		fr := libFrame(g)
+		if fr == "ibb/ibb.go:handleOpen" {
+			// an <open/> for a session some live Expect call waits for must be
+			// delivered to it; an unexpected one parks until Accept (known)
+			if atomic.LoadInt32(&w.expLive) > 0 && lastOpenExpected(c.Seq) {
+				fr += ":expected-session"
+			} else {
+				fr += ":nobody-accepts"
+			}
+		}
 		o.Detail = fr
 		o.fail("C09/serve/wedge/"+fr, "Serve did not return within the watchdog after the end of input; it is parked in "+fr)
 	case w.servePanic != "":
@@ -295,6 +307,17 @@ func runServe(c Case) Obs {
 	return o
 }
 
+// lastOpenExpected: the last <open/> of the sequence is for the session the
+// harness's Expect calls wait for (sid s1 from peerJID).
+func lastOpenExpected(seq []string) bool {
+	for i := len(seq) - 1; i >= 0; i-- {
+		if strings.Contains(seq[i], "<open") {
+			return strings.Contains(seq[i], "sid='s1'") && strings.Contains(seq[i], "from='"+peerJID+"'")
+		}
+	}
+	return false
+}
+
 func coqClass(c string) string {
 	switch c {
 	case "ok":
@@ -316,7 +339,7 @@ func coqEnv(e envT) string {
 		}
 		sb.WriteString(hx.CoqBytes([]byte(id)))
 	}
-	sb.WriteString("] " + hx.CoqBool(e.Ready) + " " + hx.CoqBytes([]byte(e.Type)) + " " + hx.CoqBool(e.OK) + " " + hx.CoqBool(e.Full) + " [" + strings.Join(e.Hist, "; ") + "])")
+	sb.WriteString("] " + hx.CoqBool(e.Ready) + " " + hx.CoqBytes([]byte(e.Type)) + " " + hx.CoqBool(e.OK) + " " + hx.CoqBool(e.Full) + " [" + strings.Join(e.Hist, "; ") + "] " + hx.CoqBool(e.Match) + ")")
 	return sb.String()
 }
 
@@ -652,6 +675,102 @@ func runCase(c Case) Obs {
 		return runHelper(c)
 	case "func":
 		return runFunc(c)
+	case "flood":
+		return runFlood(c)
 	}
 	return Obs{}
+}
+
+// ---- concurrent request helpers against a flood of results ----
+
+// runFlood: 1-4 application goroutines issue IQ requests with known ids in a
+// loop (some give up at once, some wait a little) while the peer floods the
+// session with result/error stanzas carrying those ids and unknown ones. The
+// serve loop looks every one of them up in the table the requests are
+// registered in and removed from at the same time.
+func runFlood(c Case) Obs {
+	var o Obs
+	w, err := newWorld(false, c.Bare)
+	if err != nil {
+		o.fail("C09/harness/setup", err.Error())
+		return o
+	}
+	defer w.close()
+	g, n := c.Par, 300
+	if g < 1 {
+		g = 1
+	}
+	var wg sync.WaitGroup
+	var panics sync.Map
+	for k := 0; k < g; k++ {
+		k := k
+		wg.Add(1)
+		go func() {
+			defer wg.Done()
+			p, st := catchStack(func() {
+				for i := 0; i < n; i++ {
+					d := time.Duration((i*7+k*3)%5) * 200 * time.Microsecond
+					ctx, cancel := context.WithTimeout(w.ctx, d)
+					iq := ping.IQ{IQ: stanza.IQ{ID: fmt.Sprintf("k%d-%d", k, i), Type: stanza.GetIQ, To: remoteJID}}
+					resp, _ := w.sess.SendIQ(ctx, iq.TokenReader())
+					if resp != nil {
+						resp.Close()
+					}
+					cancel()
+				}
+			})
+			if p != "" {
+				panics.Store(libFrame(st), p)
+			}
+		}()
+	}
+	floodDone := make(chan struct{})
+	go func() {
+		defer close(floodDone)
+		for i := 0; i < n; i++ {
+			var sb strings.Builder
+			for k := 0; k < g; k++ {
+				fmt.Fprintf(&sb, "<iq type='result' id='k%d-%d' from='example.net'/>", k, i)
+				fmt.Fprintf(&sb, "<iq type='error' id='zz%d-%d' from='example.net'><error type='cancel'><item-not-found xmlns='%s'/></error></iq>", k, i, nsErr)
+				fmt.Fprintf(&sb, "<message type='error' id='k%d-%d' from='example.net'/>", k, (i+1)%n)
+			}
+			if taken, _ := w.send([]byte(sb.String())); !taken {
+				return
+			}
+		}
+	}()
+	appDone := make(chan struct{})
+	go func() { wg.Wait(); close(appDone) }()
+	o.Class = "ok"
+	select {
+	case <-appDone:
+	case <-time.After(2 * watchdog):
+		o.Class = "blocked"
+		o.fail("C09/flood/helper-wedge", "request helpers running concurrently with a flood of results did not all return")
+	}
+	panics.Range(func(k, v interface{}) bool {
+		o.Class = "panic"
+		o.fail("C09/flood/panic/"+k.(string), "a request helper panicked in "+k.(string)+": "+v.(string))
+		return true
+	})
+	select {
+	case <-floodDone:
+	case <-time.After(watchdog):
+	}
+	w.send([]byte("</stream:stream>"))
+	if !w.waitServe(time.Second) {
+		w.pipe.Peer.Close()
+	}
+	if !w.waitServe(watchdog) {
+		fr := libFrame(goroutineWith("main.serveMarker"))
+		o.Class = "blocked"
+		o.fail("C09/serve/wedge/"+fr, "Serve did not return after a flood of results concurrent with request helpers; it is parked in "+fr)
+	} else if w.servePanic != "" {
+		fr := libFrame(w.serveStack)
+		o.Class = "panic"
+		o.fail("C09/serve/panic/"+fr, "Serve panicked in "+fr+": "+w.servePanic)
+	}
+	o.NonTriv = true
+	o.Classes = append(o.Classes, fmt.Sprintf("flood/%d/%s", g, o.Class))
+	return o
 }
